@@ -44,7 +44,8 @@ BUILTIN_TYPES = {'object': object, 'dict': dict, 'Exception': Exception}
 NBUILTIN = len(BUILTIN_ROWS)
 
 MEMBER_NAMES = ['alpha', 'beta', 'gamma', 'run', 'value', 'size', 'conf', 'K',
-                '__init__', '__len__', '__call__', '__getitem__']
+                '__init__', '__len__', '__call__', '__getitem__',
+                'get', 'update', 'keys']        # names dict defines itself: a builtin base written BEFORE a source base hides them
 SELF_NAMES = ['x', 'y', 'state', 'alpha', 'beta', 'run', 'value', 'K', 'data']
 AUTO_CLASS_KEYS = {'__module__', '__dict__', '__weakref__', '__doc__', '__qualname__', '__firstlineno__',
                    '__static_attributes__', '__hash__', '__annotations__', '__orig_bases__', '__parameters__'}
@@ -247,7 +248,22 @@ def gen_spec(rng, max_classes=7):
             'desc_layout': rng.choice(['local', 'base_remote', 'all_remote']),
             'recursive_receiver': [mi for mi in range(len(modules)) if rng.random() < 0.25]}
     rebind_base_names(spec, rng)
+    # EXTENDED domain (not in the property's quantifier): the base expression is a name bound on two paths, one of
+    # which is not a class value (an instance / a failed import); CPython takes the executed path, supp only classes
+    if rng.random() < 0.12:
+        cs = [c for c in classes if c['bases'] and c['name'] == 'C%d' % c['id']]
+        if cs:
+            c = rng.choice(cs)
+            pos = rng.randrange(len(c['bases']))
+            # (an INSTANCE of a builtin type is a RuntimeName like the type itself and passes the class-only filter of
+            #  ClassObject.bases: its dir() joins the table - observation O5; the instance alternative is used for source bases)
+            kind = rng.choice(['instance', 'fallback']) if c['bases'][pos] >= NBUILTIN else 'fallback'
+            c['alt_base'] = {'pos': pos, 'kind': kind}
     return spec
+
+
+def is_extended(spec):
+    return any('alt_base' in c for c in spec['classes'])
 
 
 def rebind_base_names(spec, rng):
@@ -438,6 +454,15 @@ def render(spec):
                     else:
                         bexprs.append(import_stmt(spec['refs']['%d:%d' % (mi, b)], modules[bc['module']], bc['name'],
                                                   package_of(mname))[1])
+            if 'alt_base' in c:
+                k, alias = c['alt_base']['pos'], 'B%d_' % cid
+                if c['alt_base']['kind'] == 'instance':
+                    lines += ['if True:', '    %s = %s' % (alias, bexprs[k]), 'else:', '    %s = %s()' % (alias, bexprs[k])]
+                else:
+                    lines += ['try:', '    from nosuch_mod import Zz as %s' % alias, 'except ImportError:',
+                              '    %s = %s' % (alias, bexprs[k])]
+                bexprs[k] = alias
+                names.append((alias, None))
             lines.append('class %s%s:' % (c['name'], '(%s)' % ', '.join(bexprs) if bexprs else ''))
             info = {'own': [], 'selfs': [], 'site': new_site(mi, len(lines), 6, 'class ' + c['name'])}
             R.cls[cid] = info
@@ -895,8 +920,10 @@ def plan_queries(spec, R, oracle, rng, thorough):
                     else:
                         v = orc['inst_lookup'].get(x)
                         idn = v[1] if v else None
-                    if not is_source_ident(idn):
-                        continue                  # nothing source-defined to land on (location on runtime objects: C08/F17)
+                    if not is_source_ident(idn) and not (idn is not None and x in orc['src_class_names']):
+                        continue                  # nothing source-defined along the MRO
+                    # (when the lookup selects a builtin's slot although a source class further along the MRO defines
+                    #  the name - `class Cache(dict, Store)`, Store.get - the answer must NOT be that source definition)
                     q = build(p, x, 'location')
                     q.update({'table': table, 'cid': cid, 'attr': x})
                     qs.append(q)
@@ -1080,12 +1107,18 @@ def landing_sites(rec, chain):
 PRELUDE_I = '''
 Definition tab (T : table) (c : nat) (inst : bool) : dict entry :=
   if inst then inst_attrs T c else cls_entries (class_attrs T c).
+(* an empty answer of `location` = no source position: the name is absent or bound to a runtime object *)
+Definition loc_matches (e : option entry) (obs : list site) : bool :=
+  match obs, e with
+  | [], Some (ClsAt s) => site_eqb s rt_site
+  | _, _ => entry_matches e obs
+  end.
 Definition check_q (T : table) (q : nat * bool * option (list N) * list (N * list site)) : bool :=
   match q with
   | (c, inst, ks, locs) =>
       let d := tab T c inst in
       match ks with None => true | Some ks => seteqN (keys d) ks end &&
-      forallb (fun p => entry_matches (get (fst p) d) (snd p)) locs
+      forallb (fun p => loc_matches (get (fst p) d) (snd p)) locs
   end.
 Definition check_case (cs : table * list (nat * bool * option (list N) * list (N * list site))) : bool :=
   wf (fst cs) && forallb (check_q (fst cs)) (snd cs).
@@ -1321,7 +1354,11 @@ def direct_failures(rec):
         else:
             exp = src_site(rec, idn)
             if exp is None:
-                continue                      # Python finds no source-defined attribute: nothing required
+                # Python's lookup selects an object without source (a builtin base's slot comes first in the MRO):
+                # landing on a source definition of the same name further along the MRO is a wrong answer
+                if idn is not None and any(file_module_index(rec, f) is not None for alts in res for f, _l, _c in alts):
+                    bad.append((qi, 'attribute %s: Python selects a builtin (%s), supp lands on the source definition %s' % (x, idn[1], res)))
+                continue
             if len(res) != 1 or res[-1] != [exp]:
                 bad.append((qi, 'attribute %s: Python selects %s, supp lands on %s' % (x, exp, res)))
     return bad
@@ -1415,6 +1452,14 @@ def hist_spec(ctx, spec):
             ctx.histogram('round3_shapes', 'class rebinding the name of its base')
     for _mi in spec.get('recursive_receiver', []):
         ctx.histogram('round3_shapes', 'receiver of an attribute assignment computed recursively')
+    for c in classes:
+        if 'alt_base' in c:
+            ctx.histogram('extended_domain_shapes', 'base bound on two paths, other alternative: ' + c['alt_base']['kind'])
+        bs = c['bases']
+        if any(b < NBUILTIN and any(b2 >= NBUILTIN for b2 in bs[k + 1:]) for k, b in enumerate(bs)):
+            ctx.histogram('builtin_base_position', 'builtin base written before a source base')
+        elif any(b < NBUILTIN for b in bs):
+            ctx.histogram('builtin_base_position', 'builtin base last / only')
     for mi, m in enumerate(spec['modules']):
         lv = set()
         for key, f in spec['refs'].items():
@@ -1482,9 +1527,15 @@ def run(ctx):
         if bad:
             direct_bad_h.add(rec['idx'])
         for qi, msg in bad:
+            q = rec['queries'][qi]
+            if is_extended(rec['spec']):
+                next_ = getattr(ctx, 'extension_failures', 0)
+                if next_ < 15:
+                    ctx.extension_failure('C06 direct (base bound on two paths, one not a class): %s [%s via %s, hierarchy %d]' % (
+                        msg, q['expr'], q['via'], rec['idx']), dict(describe(rec, qi), kind='direct-extended', message=msg))
+                continue
             nviol += 1
             if nviol <= 15:
-                q = rec['queries'][qi]
                 ctx.violation('C06 direct: %s [%s via %s, hierarchy %d]' % (msg, q['expr'], q['via'], rec['idx']),
                               dict(describe(rec, qi), kind='direct', message=msg))
     cov['direct_failures'] = nviol
@@ -1514,6 +1565,13 @@ def run(ctx):
     ctx.log('(I) %d queries, %d hierarchies disagree; (R) %d classes, %d hierarchies disagree' % (
         cov['correspondence_I_cases'], len(bad_i), cov['correspondence_R_cases'], len(bad_r)))
 
+    ext = {hi for hi, r in enumerate(recs) if is_extended(r['spec'])}
+    for hi in sorted(set(bad_i + bad_r) & ext)[:5]:
+        if hi not in direct_bad_h:
+            ctx.extension_failure('C06 correspondence %s disagrees on hierarchy %d whose base is bound on two paths (extended domain)' % (
+                '(I)' if hi in bad_i else '(R)', hi), {'kind': 'correspondence-extended', 'files': recs[hi]['files'], 'spec': recs[hi]['spec']})
+    bad_i = [hi for hi in bad_i if hi not in ext]
+    bad_r = [hi for hi in bad_r if hi not in ext]
     for hi in bad_r[:5]:
         rec = recs[hi]
         parts = ctx.coq_eval(['Model.Attrs'], prelude_b + PRELUDE_R + '\nDefinition cs := %s.\n' % r_terms[hi],
